@@ -228,6 +228,17 @@ func checkCase(c Case) error {
 	// 1. descriptor followed by payload
 	desc := authvar.EncodeAuth2(ts, authvar.Revision2, authvar.TypeEFIGUID, ct, c.CertData)
 	in := append(append([]byte{}, desc...), c.Payload...)
+	if len(c.CertData) >= 2 && len(c.Time)%2 == 0 && c.CertData[0]%2 == 0 {
+		// what came before must not matter: a decode of the same descriptor cut off inside its certificate data
+		// (it fails), through each entry point, before the decodes that are judged
+		cut := len(desc) - len(c.CertData)/2 - 1
+		signature.ReadEFIVariableAuthencation2(bytes.NewReader(desc[:cut]))
+		signature.ReadWinCertificateUEFIGUID(bytes.NewReader(desc[16:cut]))
+		signature.ReadWinCertificate(bytes.NewReader(desc[16:cut]))
+		var u signature.EFIVariableAuthentication2
+		u.Unmarshal(bytes.NewBuffer(append([]byte{}, desc[:cut]...)))
+		hx.Class("truncated_decode_first")
+	}
 	if err := checkDescriptor(in, c.Chunk); err != nil {
 		return fmt.Errorf("descriptor: %w", err)
 	}
